@@ -155,6 +155,11 @@ MUTANTS = {
         ('pssh-kids-read', 'dashlive/mpeg/mp4.py', '                rv["key_ids"].append(r.get(16, \'kid\'))', '                rv["key_ids"].append(r.read(16, \'kid\'))'),
         ('pssh-v0-kids', 'dashlive/mpeg/mp4.py', "        if self.version > 0:\n            w.write('I', 'num_keys', len(self.key_ids))", "        if self.key_ids:\n            w.write('I', 'num_keys', len(self.key_ids))"),
         ('pssh-datalen', 'dashlive/mpeg/mp4.py', "            w.write('I', 'data_len', len(self.data))", "            w.write('I', 'data_len', len(self.data) + 1)"),
+        ('sidx-ref-order', 'dashlive/mpeg/mp4.py', "        w.writebits(3, 'SAP_type')\n        w.writebits(28, 'SAP_delta_time')", "        w.writebits(28, 'SAP_delta_time')\n        w.writebits(3, 'SAP_type')"),
+        ('sidx-ref-size-32', 'dashlive/mpeg/mp4.py', "        w.writebits(1, 'ref_type')\n        w.writebits(31, 'ref_size')", "        w.writebits(32, 'ref_size')"),
+        ('sidx-parse-order', 'dashlive/mpeg/mp4.py', "        r.read(sz, 'earliest_presentation_time')\n        r.read(sz, 'first_offset')", "        r.read(sz, 'first_offset')\n        r.read(sz, 'earliest_presentation_time')"),
+        ('sidx-count', 'dashlive/mpeg/mp4.py', "        w.write('H', 'reference_count', len(self.references))", "        w.write('H', 'reference_count', len(self.references) + 1)"),
+        ('sidx-v1-offset-32', 'dashlive/mpeg/mp4.py', "        w.write(sz, 'earliest_presentation_time')\n        w.write(sz, 'first_offset')\n        w.write('H', 'reserved', 0)", "        w.write(sz, 'earliest_presentation_time')\n        w.write('I', 'first_offset')\n        w.write('H', 'reserved', 0)"),
         ('mfhd-h', 'dashlive/mpeg/mp4.py', "        w.write('I', 'sequence_number')", "        w.write('H', 'sequence_number')"),
         ('mehd-swap', 'dashlive/mpeg/mp4.py', "        if self.version == 1:\n            w.write('Q', 'fragment_duration')\n        else:\n            w.write('I', 'fragment_duration')", "        if self.version == 0:\n            w.write('Q', 'fragment_duration')\n        else:\n            w.write('I', 'fragment_duration')"),
         ('trex-order', 'dashlive/mpeg/mp4.py', "        w.write('I', 'default_sample_duration')\n        w.write('I', 'default_sample_size')\n        w.write('I', 'default_sample_flags')\n\n", "        w.write('I', 'default_sample_size')\n        w.write('I', 'default_sample_duration')\n        w.write('I', 'default_sample_flags')\n\n"),
